@@ -1,5 +1,6 @@
 import PikaVerif.Props.C08
 import PikaVerif.Lemmas.SemProg
+import PikaVerif.Lemmas.SemCover
 /-!
 # C08t — termination / bounded progress of the semaphore operations (follow-up of C08)
 
@@ -91,5 +92,66 @@ theorem C08t_final_state (n : Nat) (v : Int) (hv : 0 ≤ v) (prog : Nat → List
   · have hlt := C08_blocked_released p.s hreach hstuck t hb
     have hnn := (C08_conservation n v hv log p.s hlog).2.2
     exact Or.inr ⟨hb, by omega⟩
+
+/-- **Accounting at the end of a maximal run.**  If a maximal run of a program ends with a thread
+    still parked in `acquire`, then the initial count plus *all* permits the program releases
+    (`progRel`) is smaller than the number of acquire-type operations (`progCons`: acquire,
+    try_acquire, timed acquire) plus the permits of releases that sit behind an untimed acquire in
+    their own thread's program (`progHazard`: they may never be executed because that acquire
+    blocks). -/
+theorem C08t_blocked_accounting (n : Nat) (v : Int) (hv : 0 ≤ v) (prog : Nat → List Op) (log : List Ev)
+    (p : PSt) (h : runLog pstep (pinit n v prog) log = some p) (hs : PStuck p) (t0 : Nat) (ht0 : t0 < n)
+    (hb : Blocked p.s t0) : v + (progRel n prog : Int) < progCons n prog + progHazard n prog := by
+  have hfs := C08t_final_state n v hv prog log p h hs
+  have hlog := runLog_pstep_step log _ p h
+  have hn : p.s.n = n := (counters_log log _ _ hlog).2.2.2
+  have hinit : p.s.init = v := (counters_log log _ _ hlog).2.2.1
+  obtain ⟨hi, _⟩ := inv2_of_accepted hlog
+  have hacc := hi.account
+  obtain ⟨c1, c2, c3⟩ := cover_log log _ p h
+  obtain ⟨d1, d2, d3⟩ := cover_pinit n v prog
+  rw [d1] at c1; rw [d2] at c2
+  have hval : p.s.value = 0 := by
+    rcases hfs t0 ht0 with hf | hb'
+    · rw [hb.1] at hf; simp at hf
+    · exact hb'.2
+  have hR0 : sumTo p.s.n (fun u => pendR (p.s.pc u)) = 0 := by
+    apply sumTo_eq_zero
+    intro u hu
+    rcases hfs u (by omega) with hf | hb'
+    · simp [hf.1, pendR]
+    · simp [hb'.1.1, pendR]
+  have hRT : sumTo p.s.n (fun u => relTot (p.prog u)) ≤ progHazard n prog := by
+    rw [hn]
+    apply sumTo_le
+    intro u hu
+    rcases hfs u hu with hf | hb'
+    · simp [hf.2, relTot]
+    · have := c3 u
+      rw [d3 u] at this
+      simpa [hW, hb'.1.1, inAcq] using this
+  have hC := le_sumTo (f := fun u => pendC (p.s.pc u)) (show t0 < p.s.n by omega)
+  have hC1 : pendC (p.s.pc t0) = 1 := by rw [hb.1]; rfl
+  change pendC (p.s.pc t0) ≤ _ at hC
+  rw [hC1] at hC
+  simp only [relSum] at c1
+  simp only [consSum] at c2
+  omega
+
+/-- **A task blocked in acquire proceeds once enough permits have been released.**  If the
+    initial count plus the permits released by the program cover its acquire-type operations
+    (counting only releases that are not sequenced behind an untimed acquire of their own thread:
+    `progCons + progHazard ≤ v + progRel`; with no release behind an acquire this is literally
+    "initial + sum of release counts ≥ number of acquires"), then **every maximal run ends with all
+    operations returned**: every thread has finished its whole program. -/
+theorem C08t_covered_all_return (n : Nat) (v : Int) (hv : 0 ≤ v) (prog : Nat → List Op) (log : List Ev)
+    (p : PSt) (h : runLog pstep (pinit n v prog) log = some p) (hs : PStuck p)
+    (hcov : (progCons n prog : Int) + progHazard n prog ≤ v + progRel n prog) :
+    ∀ t, t < n → p.s.pc t = .fin ∧ p.prog t = [] := by
+  intro t ht
+  rcases C08t_final_state n v hv prog log p h hs t ht with hf | hb
+  · exact hf
+  · have := C08t_blocked_accounting n v hv prog log p h hs t ht hb.1
+    omega
 
 end PikaVerif.C08t
